@@ -335,12 +335,8 @@ def gen_exhaustive():
 #
 # Classes deliberately NOT generated, because the UNCHANGED tree fails on them (each is a finding that
 # was reported, none is silenced by an oracle exception):
-#   * link_range with an open end, (None, stop) / (start, None): `assert start < stop` is evaluated
-#     before the `is None` tests -> TypeError (the None handling is dead code);
-#   * a float-typed t_column: `astype(np.integer)` -> TypeError with numpy 2 (the docstring promises
-#     the column "will be coerced to integer");
-#   * a `particle` column of a narrow integer dtype (int8/16/32, uint8/16/32): pandas 3 refuses
-#     `f.loc[mask, 'particle'] = _ids` -> TypeError "Invalid value '[0, 1]' for dtype 'int32'";
+#   (open-ended link ranges, a float-typed t_column and narrow integer label columns used to be on
+#   this list: repaired in /repo — cc756c2, 80089b8, 3d85c04 — and generated since)
 #   * a user column called `_old_particle`: overwritten and dropped (values not preserved);
 #   * an index NAMED `particle`: `groupby('particle')` is ambiguous -> ValueError;
 #   * negative old labels (-1, ...): reconnect_traj_patch treats `p_old < 0` as "unlabelled" and does
@@ -383,6 +379,8 @@ def gen_opts(rng, thorough=False):
         o["label_dtype"] = rng.choice(["int64"] * 6 + ["uint64", "object", "Int64"])
     else:
         o["label_dtype"] = rng.choice(["int64"] * 5 + ["uint64", "float64", "float64", "object", "Int64"])
+        if mx < 2 ** 31 - 64 and rng.random() < 0.2:
+            o["label_dtype"] = "int32" if mx >= 2 ** 15 - 64 else rng.choice(["int32", "int16", "uint32"])
     # ---- frame numbers: shifted far / negative, dtype
     shift = rng.choice([0] * 6 + [-7, -1000, 1000, 2 ** 31 + 5, -(2 ** 31) - 9])
     if shift:
@@ -401,6 +399,8 @@ def gen_opts(rng, thorough=False):
         fd += ["uint64", "uint32"] if fhi < 2 ** 32 - 1 else ["uint64"]
         if fhi < 255:
             fd += ["uint8", "uint16"]
+    if abs(flo) < 2 ** 52 and abs(fhi) < 2 ** 52:
+        fd += ["float64", "float64", "float32"] if max(abs(flo), abs(fhi)) < 2 ** 23 else ["float64", "float64"]
     o["frame_dtype"] = rng.choice(fd)
     # ---- t_column
     tk = rng.choice(["default"] * 4 + ["explicit", "custom", "custom", "custom", "custom_decoy", "custom_decoy",
@@ -450,7 +450,17 @@ def gen_opts(rng, thorough=False):
     else:
         o["sr_form"] = sk
     # ---- link_range form
-    o["range_form"] = rng.choice(["tuple"] * 3 + ["list", "list", "npint", "ndarray"])
+    o["range_form"] = rng.choice(["tuple"] * 3 + ["list", "list", "npint", "ndarray", "open_lo", "open_hi",
+                                                 "open_both"])
+    cand = list(inp["range"])
+    if o["range_form"] in ("open_lo", "open_both"):       # (None, b) means "from the first frame"
+        cand[0] = min(r[0] for r in rows)
+    if o["range_form"] in ("open_hi", "open_both"):       # (a, None) means "to the last frame"
+        cand[1] = max(r[0] for r in rows) + 1
+    if cand[0] < cand[1]:
+        inp["range"] = cand
+    else:
+        o["range_form"] = "tuple"
     # ---- other columns whose names resemble the ones link_partial uses internally
     if rng.random() < 0.4:
         pool = ["particle_old", "old_particle", "_particle", "particle_new", "index", "level_0", "new",
@@ -751,7 +761,8 @@ def call_args(inp, sp):
         sr = tuple(per)
     rf = sp["range_form"]
     rng_arg = {"tuple": (a, b), "list": [a, b], "npint": (np.int64(a), np.int64(b)),
-               "ndarray": np.array([a, b], dtype=np.int64)}[rf]
+               "ndarray": np.array([a, b], dtype=np.int64), "open_lo": (None, b), "open_hi": (a, None),
+               "open_both": (None, None)}[rf]
     kw = dict(sp["kwargs"])
     if sp["pos_explicit"]:
         pc = [sp["names"][ax] for ax in axes]
